@@ -34,3 +34,93 @@ func CompareAndSwapPointer(addr *unsafe.Pointer, old, new unsafe.Pointer) bool {
 	point("ptr.cas")
 	return atomic.CompareAndSwapPointer(addr, old, new)
 }
+
+// ---- the rest of the sync/atomic API, so that a revision of valuemap.go that uses other atomic operations still builds
+// under the overlay (each operation is a scheduling point, then the real operation)
+
+func SwapPointer(addr *unsafe.Pointer, new unsafe.Pointer) unsafe.Pointer {
+	point("ptr.swap")
+	return atomic.SwapPointer(addr, new)
+}
+
+func AddInt32(addr *int32, delta int32) int32     { point("i32.add"); return atomic.AddInt32(addr, delta) }
+func AddInt64(addr *int64, delta int64) int64     { point("i64.add"); return atomic.AddInt64(addr, delta) }
+func AddUint32(addr *uint32, delta uint32) uint32 { point("u32.add"); return atomic.AddUint32(addr, delta) }
+func AddUint64(addr *uint64, delta uint64) uint64 { point("u64.add"); return atomic.AddUint64(addr, delta) }
+func LoadInt32(addr *int32) int32                 { point("i32.load"); return atomic.LoadInt32(addr) }
+func LoadInt64(addr *int64) int64                 { point("i64.load"); return atomic.LoadInt64(addr) }
+func LoadUint32(addr *uint32) uint32              { point("u32.load"); return atomic.LoadUint32(addr) }
+func LoadUint64(addr *uint64) uint64              { point("u64.load"); return atomic.LoadUint64(addr) }
+func StoreInt32(addr *int32, v int32)             { point("i32.store"); atomic.StoreInt32(addr, v) }
+func StoreInt64(addr *int64, v int64)             { point("i64.store"); atomic.StoreInt64(addr, v) }
+func StoreUint32(addr *uint32, v uint32)          { point("u32.store"); atomic.StoreUint32(addr, v) }
+func StoreUint64(addr *uint64, v uint64)          { point("u64.store"); atomic.StoreUint64(addr, v) }
+func SwapInt32(addr *int32, v int32) int32        { point("i32.swap"); return atomic.SwapInt32(addr, v) }
+func SwapInt64(addr *int64, v int64) int64        { point("i64.swap"); return atomic.SwapInt64(addr, v) }
+func SwapUint32(addr *uint32, v uint32) uint32    { point("u32.swap"); return atomic.SwapUint32(addr, v) }
+func SwapUint64(addr *uint64, v uint64) uint64    { point("u64.swap"); return atomic.SwapUint64(addr, v) }
+func CompareAndSwapInt32(addr *int32, o, n int32) bool {
+	point("i32.cas")
+	return atomic.CompareAndSwapInt32(addr, o, n)
+}
+func CompareAndSwapInt64(addr *int64, o, n int64) bool {
+	point("i64.cas")
+	return atomic.CompareAndSwapInt64(addr, o, n)
+}
+func CompareAndSwapUint32(addr *uint32, o, n uint32) bool {
+	point("u32.cas")
+	return atomic.CompareAndSwapUint32(addr, o, n)
+}
+func CompareAndSwapUint64(addr *uint64, o, n uint64) bool {
+	point("u64.cas")
+	return atomic.CompareAndSwapUint64(addr, o, n)
+}
+
+type Int32 struct{ v atomic.Int32 }
+
+func (x *Int32) Load() int32                    { point("i32.load"); return x.v.Load() }
+func (x *Int32) Store(v int32)                  { point("i32.store"); x.v.Store(v) }
+func (x *Int32) Add(d int32) int32              { point("i32.add"); return x.v.Add(d) }
+func (x *Int32) Swap(v int32) int32             { point("i32.swap"); return x.v.Swap(v) }
+func (x *Int32) CompareAndSwap(o, n int32) bool { point("i32.cas"); return x.v.CompareAndSwap(o, n) }
+
+type Int64 struct{ v atomic.Int64 }
+
+func (x *Int64) Load() int64                    { point("i64.load"); return x.v.Load() }
+func (x *Int64) Store(v int64)                  { point("i64.store"); x.v.Store(v) }
+func (x *Int64) Add(d int64) int64              { point("i64.add"); return x.v.Add(d) }
+func (x *Int64) Swap(v int64) int64             { point("i64.swap"); return x.v.Swap(v) }
+func (x *Int64) CompareAndSwap(o, n int64) bool { point("i64.cas"); return x.v.CompareAndSwap(o, n) }
+
+type Uint32 struct{ v atomic.Uint32 }
+
+func (x *Uint32) Load() uint32                    { point("u32.load"); return x.v.Load() }
+func (x *Uint32) Store(v uint32)                  { point("u32.store"); x.v.Store(v) }
+func (x *Uint32) Add(d uint32) uint32             { point("u32.add"); return x.v.Add(d) }
+func (x *Uint32) Swap(v uint32) uint32            { point("u32.swap"); return x.v.Swap(v) }
+func (x *Uint32) CompareAndSwap(o, n uint32) bool { point("u32.cas"); return x.v.CompareAndSwap(o, n) }
+
+type Uint64 struct{ v atomic.Uint64 }
+
+func (x *Uint64) Load() uint64                    { point("u64.load"); return x.v.Load() }
+func (x *Uint64) Store(v uint64)                  { point("u64.store"); x.v.Store(v) }
+func (x *Uint64) Add(d uint64) uint64             { point("u64.add"); return x.v.Add(d) }
+func (x *Uint64) Swap(v uint64) uint64            { point("u64.swap"); return x.v.Swap(v) }
+func (x *Uint64) CompareAndSwap(o, n uint64) bool { point("u64.cas"); return x.v.CompareAndSwap(o, n) }
+
+type Bool struct{ v atomic.Bool }
+
+func (x *Bool) Load() bool                    { point("bool.load"); return x.v.Load() }
+func (x *Bool) Store(v bool)                  { point("bool.store"); x.v.Store(v) }
+func (x *Bool) Swap(v bool) bool              { point("bool.swap"); return x.v.Swap(v) }
+func (x *Bool) CompareAndSwap(o, n bool) bool { point("bool.cas"); return x.v.CompareAndSwap(o, n) }
+
+type Pointer[T any] struct{ v atomic.Pointer[T] }
+
+func (x *Pointer[T]) Load() *T                    { point("ptr.load"); return x.v.Load() }
+func (x *Pointer[T]) Store(v *T)                  { point("ptr.store"); x.v.Store(v) }
+func (x *Pointer[T]) Swap(v *T) *T                { point("ptr.swap"); return x.v.Swap(v) }
+func (x *Pointer[T]) CompareAndSwap(o, n *T) bool { point("ptr.cas"); return x.v.CompareAndSwap(o, n) }
+
+func (v *Value) Swap(x any) any                  { point("value.swap"); return v.v.Swap(x) }
+func (v *Value) CompareAndSwap(o, n any) bool    { point("value.cas"); return v.v.CompareAndSwap(o, n) }
